@@ -43,7 +43,7 @@ pub fn corpus() -> Vec<Scenario> {
         v.push(Scenario { name: format!("{}/{}", set.name(), name), class, set, cmd: 40, hist: 64, prompt: 0, script, setup, target: Some(target) });
     };
     let silent: Vec<HAction> = vec![];
-    let writes = |calls: Vec<WCall>| vec![HAction { writes: calls, set_prompt: None, fail: false }];
+    let writes = |calls: Vec<WCall>| vec![HAction { writes: calls, set_prompt: None, fail: false, reject: false }];
     for set in [SetKind::Raw, SetKind::FixA, SetKind::FixG] {
         // ---- editing
         add("type-at-end", "echo", set, silent.clone(), bytes("ab"), bytes("c"));
@@ -70,7 +70,7 @@ pub fn corpus() -> Vec<Scenario> {
         add("enter-handler-writes", "enter-output", set, writes(vec![w(WKind::Str, "out")]), bytes("ab x"), bytes("\r"));
         add("enter-handler-writes-nl", "enter-output", set, writes(vec![w(WKind::Str, "l1\nl2\n")]), bytes("ab x"), bytes("\r"));
         add("enter-handler-writeln-fmt", "enter-output", set, writes(vec![w(WKind::Ln, "a"), w(WKind::Fmt, "b"), w(WKind::Ufmt, "c\n"), w(WKind::Str, "")]), bytes("ab x"), bytes("\r"));
-        add("enter-handler-prompt", "enter-output", set, vec![HAction { writes: vec![w(WKind::Str, "p")], set_prompt: Some(3), fail: false }], bytes("ab x"), bytes("\r"));
+        add("enter-handler-prompt", "enter-output", set, vec![HAction { writes: vec![w(WKind::Str, "p")], set_prompt: Some(3), fail: false, reject: false }], bytes("ab x"), bytes("\r"));
         // ---- application calls
         add("write-empty", "write", set, silent.clone(), bytes("ab"), vec![Op::Write(vec![])]);
         add("write-one", "write", set, silent.clone(), bytes(&format!("ab{}", left)), vec![Op::Write(vec![w(WKind::Str, "note")])]);
